@@ -9,7 +9,7 @@ from sa.cfg import CFG
 from sa.classes import (init_fields, init_param_of_field, method_fields, fields_of, uses_as_sequence,
                         seq_field, self_name)
 from sa.report import AnalysisError
-from sa.srcmodel import unparse, walk_no_nested, calls_in, owner_class
+from sa.srcmodel import unparse, walk_no_nested, calls_in, owner_class, dotted
 
 IMMUTABLE = 'pharmpy.internals.immutable.Immutable'
 UNHASHABLE_ANN = ('DataFrame', 'Series', 'list', 'List', 'dict', 'Dict', 'set', 'Set', 'ndarray', 'DiGraph', 'Graph')
@@ -312,6 +312,86 @@ def run(chk, repo, tier):
                                       f'identity', line=call.lineno,
                                       witness='hash(obj) raises TypeError, or two equal objects built separately '
                                               'have different hashes')
+
+    # ---- M8: computed estimates and bounds go through the validating constructor
+    M8 = chk.rule('M8', 'a Parameter whose initial estimate or bounds are computed inside pharmpy.modeling (result of a '
+                        'helper call, e.g. bounds derived from the data) is built with Parameter.create (validates '
+                        'lower <= init <= upper), not with the raw constructor', floor=3)
+    n8 = 0
+    for f in repo.all_funcs():
+        if not f.module.name.startswith('pharmpy.modeling'):
+            continue
+        raw = [c for c in calls_in(f.node) if dotted(c.func) == 'Parameter']
+        if not raw:
+            continue
+        params = set(f.all_params)
+
+        def computed(e, depth=3):
+            # the value comes out of a call made in this function (directly, subscripted, or through a local)
+            if isinstance(e, ast.Call):
+                return dotted(e.func) not in ('float', 'int', 'str', 'abs')
+            if isinstance(e, ast.Subscript):
+                return computed(e.value, depth)
+            if isinstance(e, (ast.BinOp,)):
+                return computed(e.left, depth) or computed(e.right, depth)
+            if isinstance(e, ast.Name) and e.id not in params and depth > 0:
+                defs = [a.value for a in walk_no_nested(f.node) if isinstance(a, ast.Assign)
+                        and any(isinstance(t, ast.Name) and t.id == e.id for t in a.targets)]
+                return any(computed(d, depth - 1) for d in defs)
+            return False
+        for c in raw:
+            n8 += 1
+            vals = list(c.args[1:]) + [k.value for k in c.keywords if k.arg in ('init', 'lower', 'upper')]
+            comp = [unparse(v) for v in vals if computed(v)]
+            chk.instance(M8, f'{f.qualname}: {unparse(c)[:70]} computed values: {comp}')
+            if len(comp) >= 2:
+                chk.violation(M8, f.module.rel, f.qualname, unparse(c)[:100],
+                              f'initial estimate and bounds ({", ".join(comp)}) are computed and handed to the raw constructor: '
+                              f'nothing checks lower <= init <= upper', line=c.lineno,
+                              witness='a covariate whose range makes the computed upper bound smaller than the default '
+                                      'initial estimate: the returned model has an initial value outside its bounds')
+    if n8 < 3:
+        raise AnalysisError(f'M8: only {n8} raw Parameter(...) calls found in pharmpy.modeling')
+
+    # ---- M7: the same view of a field in __eq__ and __hash__
+    M7 = chk.rule('M7', '__eq__ and __hash__ read a field through the same view: a property that transforms the stored value '
+                        '(sorts, filters, converts) is not mixed with the raw attribute', floor=5)
+    for c in repo.all_classes():
+        e, h = c.methods.get('__eq__'), c.methods.get('__hash__')
+        if not (e and h):
+            continue
+        from sa.classes import prop_field_map
+        plain = prop_field_map(repo, c)          # property name -> field for `return self._f`
+        ctor_fields = set(init_fields(repo, c))
+        transforming = {}
+        for k in repo.mro(c):
+            for pname, pf in k.methods.items():
+                if not pf.is_property() or pname in plain or pname in transforming:
+                    continue
+                fld = '_' + pname
+                if fld in ctor_fields and any(isinstance(a, ast.Attribute) and isinstance(a.value, ast.Name)
+                                              and a.value.id == 'self' and a.attr == fld for a in ast.walk(pf.node)):
+                    transforming[pname] = fld
+        pmap = dict(plain)
+        pmap.update(transforming)
+        def views(m):
+            v = {}
+            for a in ast.walk(m.node):
+                if isinstance(a, ast.Attribute) and isinstance(a.value, ast.Name) and a.value.id == 'self':
+                    if a.attr in transforming:
+                        v.setdefault(transforming[a.attr], set()).add('property ' + a.attr)
+                    elif a.attr in set(pmap.values()):
+                        v.setdefault(a.attr, set()).add('raw')
+            return v
+        ve, vh = views(e), views(h)
+        for fld in sorted(set(ve) & set(vh)):
+            chk.instance(M7, f'{c.fq}.{fld}: __eq__ via {sorted(ve[fld])}, __hash__ via {sorted(vh[fld])}')
+            if ve[fld] != vh[fld]:
+                chk.violation(M7, c.module.rel, c.name, f'{fld}: __eq__ via {sorted(ve[fld])}, __hash__ via {sorted(vh[fld])}',
+                              f'`{fld}` is compared through a view that normalises the stored value and hashed through another: '
+                              f'two objects can be equal and hash differently', line=e.node.lineno,
+                              witness='a compartment with a bolus and an infusion attached in different order along two '
+                                      'routes: a == b but {a, b} has two elements')
 
     # ---- M4
     n4 = 0
